@@ -847,6 +847,68 @@ pub fn registry_exhaustive(idx: usize, seed: u64, w: &mut dyn Write, thorough: b
 }
 
 // ---------------------------------------------------------------------------------------
+// small-scope exhaustive exploration of the marketplace itself (DFS with PUSH/POP): every sequence
+// of up to `depth` operations over a fixed alphabet around one listing and two competing buckets
+// ---------------------------------------------------------------------------------------
+
+pub fn market_exhaustive(idx: usize, seed: u64, w: &mut dyn Write, thorough: bool) -> Option<Stats> {
+    let sim = Sim::new(Config { n_users: 3, n_cw20: 1, n_cw721: 1, nfts_per_user_per_collection: 1, n_hostile: 0, ..Config::default() });
+    let coll = sim.cw721_addrs()[0].clone();
+    let a_tid = sim.nft_owners(&coll).into_iter().find(|(_, o)| o == "alice").map(|(t, _)| t).unwrap();
+    let ask = create(&[(400, USDC_DENOM)]);
+    let alphabet: Vec<Op> = vec![
+        x("alice", natives(&[(300, JUNO_DENOM)]), MMsg::CL { id: 1, create: ask.clone() }),
+        Op::T721 { coll: coll.clone(), sender: "alice".into(), token_id: a_tid.clone(), inner: Inner::AL { id: 1 } },
+        x("alice", vec![], MMsg::FI { id: 1, seconds: 600 }),
+        x("alice", vec![], MMsg::CA { id: 1, ask: ask_native(&[(401, USDC_DENOM)]) }),
+        x("alice", vec![], MMsg::DL { id: 1 }),
+        x("bobby", natives(&[(400, USDC_DENOM)]), MMsg::CB { id: 1 }),
+        x("bobby", natives(&[(1, USDC_DENOM)]), MMsg::AB { id: 1 }),
+        x("bobby", vec![], MMsg::BL { listing_id: 1, bucket_id: 1 }),
+        x("bobby", vec![], MMsg::WP { id: 1 }),
+        x("bobby", vec![], MMsg::RB { id: 1 }),
+        x("alice", vec![], MMsg::RB { id: 1 }),
+        x("carol", natives(&[(400, USDC_DENOM)]), MMsg::CB { id: 2 }),
+        x("carol", vec![], MMsg::BL { listing_id: 1, bucket_id: 2 }),
+        x("alice", vec![], MMsg::BL { listing_id: 1, bucket_id: 1 }),
+        Op::ADV { d_ns: 600_000_000_000, d_height: 100 },
+        Op::ADV { d_ns: 1, d_height: 0 },
+        Op::ADV { d_ns: 604_801_000_000_000, d_height: 100_800 },
+        x("carol", vec![], MMsg::FC),
+        Op::R { sender: DEPLOYER.into(), msg: RMsg::Reg { nft: va(&coll), payout: va(PAYOUTS[0]), bps: 300 } },
+    ];
+    if idx >= alphabet.len() {
+        return None;
+    }
+    let depth = if thorough { 6 } else { 4 };
+    let mut g = Gen::start(sim, &format!("mx:{} market-exhaustive depth {}", idx, depth), seed, w, thorough);
+    fn dfs(g: &mut Gen, alphabet: &[Op], depth: usize, drain_at: usize) {
+        if depth == drain_at {
+            g.battery_drain();
+        }
+        if depth == 0 {
+            return;
+        }
+        for op in alphabet {
+            g.push();
+            let out = g.step(op);
+            // a refused operation leaves the state as it was: nothing new below it
+            if out.ok {
+                dfs(g, alphabet, depth - 1, drain_at);
+            }
+            g.pop();
+        }
+    }
+    g.push();
+    let out = g.step(&alphabet[idx]);
+    if out.ok {
+        dfs(&mut g, &alphabet, depth - 1, if thorough { 2 } else { 1 });
+    }
+    g.pop();
+    Some(g.stats)
+}
+
+// ---------------------------------------------------------------------------------------
 // C16: paging with many records
 // ---------------------------------------------------------------------------------------
 
